@@ -40,7 +40,7 @@ KINDS = ["fast_plain", "fast_nodew", "general_edgew", "general_zero", "gillespie
 def plan(tier):
     if tier == "quick":
         return [("gil_walk", 1200), ("law", N_LAW_CFG[tier] * LAW_BATCHES)]
-    return [("gil_walk", 60000), ("law", N_LAW_CFG[tier] * LAW_BATCHES)]
+    return [("gil_walk", 15000), ("law", N_LAW_CFG[tier] * LAW_BATCHES)]
 
 
 def law_configs(seed, tier):
